@@ -5,8 +5,8 @@ import OptunaVerif.Lemmas.SearchSpaceGroups
 
 Model: `Model/SearchSpace.lean` (`_calculate`, `IntersectionSearchSpace.calculate`,
 `intersection_search_space`, `_SearchSpaceGroup.add_distributions`, `_GroupDecomposedSearchSpace.calculate`;
-the integer expressions and state lists of `_calculate` are regenerated from the Python source into
-`Generated/SearchSpaceCode.lean` on every run).
+the integer expressions and state lists of `_calculate` are the constants `SearchSpace.SearchSpaceCode.*`, tied
+to the source on every run by `Props/C17Gen.lean`).
 
 Every history theorem quantifies over **all** finite lists of steps (`Step`: create a trial in any state
 with any parameters / write a parameter of an unfinished trial / change the state of an unfinished trial
@@ -16,7 +16,7 @@ the number of trials or the order in which trials finish.  The two facts used ab
 the step function.
 -/
 namespace OptunaVerif.C17
-open OptunaVerif OptunaVerif.SearchSpace OptunaVerif.Generated
+open OptunaVerif OptunaVerif.SearchSpace
 
 /-- the state of (study, intersection calculator, group calculator) after a history -/
 def run (sid : Nat) (ipI ipG : Bool) (h : List Step) : Sys := after sid (Sys.init ipI ipG) h
